@@ -43,7 +43,7 @@ def generate(seed, tier, k):
     ops = []
     for _ in range(n):
         name = r.choice(ROUTINES)
-        op = {"r": name, "dim": r.choice([1, 2, 3, 3]), "seed": r.randrange(1 << 30), "out": r.choice([None, None, "fresh", "dirty", "dirty"]), "parallel": r.random() < 0.5, "bcast": r.choice([None, None, "A", "B", "c"])}
+        op = {"r": name, "dim": r.choice([1, 2, 3, 3]), "seed": r.randrange(1 << 30), "out": r.choice([None, None, "fresh", "dirty", "dirty", "strided", "fortran"]), "parallel": r.random() < 0.5, "bcast": r.choice([None, None, "A", "B", "c"])}
         if name == "dot":
             op["mode"] = list(r.choice(DOT_MODES))
         if name == "ddot":
@@ -136,6 +136,14 @@ class Machine:
             self.log.count("variant:out-dirty")
             buf = self.dirty[tuple(shape)]
             return buf
+        if mode == "strided" and len(shape) >= 1 and shape[-1] >= 1:
+            # a correctly shaped slice of a larger workspace (not contiguous)
+            self.log.count("variant:out-noncontiguous")
+            work = np.full(tuple(shape[:-1]) + (2 * shape[-1] + 1,), -3.5)
+            return work[..., 1 : 1 + 2 * shape[-1] : 2]
+        if mode == "fortran":
+            self.log.count("variant:out-noncontiguous")
+            return np.full(shape, -3.5, order="F")
         self.log.count("variant:out-fresh")
         return np.full(shape, 7.5)
 
